@@ -72,7 +72,7 @@ CHECKS = {
 }
 
 # properties whose check is registered (monitor built and silent on the unchanged tree)
-CLAIMED = ["C01", "C02", "C03", "C04", "C05", "C06", "C07", "C08", "C10", "C11", "C12", "C13", "C16", "C17", "C19", "C20"]
+CLAIMED = ["C%02d" % i for i in range(1, 21)]
 NOT_BUILT_REASON = "monitor designed in DESIGN.md section 6 but not yet built/validated in this session; not claimed until its check runs silently on the unchanged tree"
 
 HOOK_COMMITS = ["a46765c", "574d714"]
